@@ -56,4 +56,13 @@ theorem flow_snapshot_under_read_lock : Ebu.Flow.publishPrelude = true := by dec
 /-- OBLIGATION: the retirement step of M2 removes exactly the claimed registrations (pointer identity) inside one write-locked section after the loop -/
 theorem flow_retire_by_identity : Ebu.Flow.retireByIdentity = true := by decide +kernel
 
+/-- OBLIGATION: M2's `subscribe` step: options first, then one append under the write lock -/
+theorem flow_registry_calls : Ebu.Flow.subscribeShape = true := by decide +kernel
+
+/-- OBLIGATION: M2's `unsubscribe` step (`eraseFirst`): the first registration with that code pointer, one entry, under the write lock -/
+theorem flow_unsubscribe_first_match : Ebu.Flow.unsubscribeShape = true := by decide +kernel
+
+/-- OBLIGATION: M2's `clear` step: one delete under the write lock -/
+theorem flow_clear_shape : Ebu.Flow.clearShape = true := by decide +kernel
+
 end Ebu.Props.C02
